@@ -21,6 +21,6 @@ void verif_observe(uint64_t);
 #define V_ASSUME(c) __CPROVER_assume((c))
 // Reachability witness: must come back FAILED from the solver, otherwise the harness is vacuous.
 #define V_WITNESS(label) __CPROVER_assert(false, "WITNESS:" label)
-#define HARNESS extern "C" __attribute__((noinline, used)) void
+#define HARNESS extern "C" __attribute__((noinline)) void
 
 static inline void v_observe_bytes(const uint8_t* p, size_t n) { for (size_t i = 0; i < n; i++) verif_observe(p[i]); }
